@@ -15,6 +15,7 @@ import (
 	"runtime"
 	"sort"
 	"strings"
+	"sync"
 )
 
 // ---------------------------------------------------------------- ticks
@@ -291,9 +292,9 @@ type thread struct {
 	selDefault bool
 	selDone    bool // a partner thread completed one of the cases
 	selIdx     int
-	diverged bool
-	panicked any
-	stack    string
+	diverged   bool
+	panicked   any
+	stack      string
 }
 
 type mutexState struct {
@@ -332,36 +333,36 @@ type Race struct {
 
 // Point is one scheduling decision of an execution.
 type Point struct {
-	Enabled []int // thread ids in canonical order (running thread first if enabled)
-	Chosen  int   // index into Enabled
-	Running int   // id of the thread that ran before this point, -1 at start
+	Enabled        []int // thread ids in canonical order (running thread first if enabled)
+	Chosen         int   // index into Enabled
+	Running        int   // id of the thread that ran before this point, -1 at start
 	RunningEnabled bool
-	Op      Op    // op of the chosen thread
+	Op             Op // op of the chosen thread
 }
 
 // Sched is one controlled execution.
 type Sched struct {
-	threads  []*thread
-	cur      *thread
-	ctl      chan struct{}
-	choices  []int // prefix to replay
-	Points   []Point
-	mutexes  map[any]*mutexState
-	chans    map[any]*chanState
-	vars     map[string]*varState
-	Races    []Race
-	raceSeen map[string]bool
-	aborting bool
-	Deadlock bool
-	Blocked  []string // descriptions of threads blocked for ever at the end
-	Diverged []int
-	Panics   []string
-	StepCap  int
-	Livelock bool
+	threads   []*thread
+	cur       *thread
+	ctl       chan struct{}
+	choices   []int // prefix to replay
+	Points    []Point
+	mutexes   map[any]*mutexState
+	chans     map[any]*chanState
+	vars      map[string]*varState
+	Races     []Race
+	raceSeen  map[string]bool
+	aborting  bool
+	Deadlock  bool
+	Blocked   []string // descriptions of threads blocked for ever at the end
+	Diverged  []int
+	Panics    []string
+	StepCap   int
+	Livelock  bool
 	BadReplay string
-	nobj     int
-	onceDone map[any]*onceState
-	wgs      map[any]*wgState
+	nobj      int
+	onceDone  map[any]*onceState
+	wgs       map[any]*wgState
 }
 
 type onceState struct {
@@ -1231,4 +1232,85 @@ func RestoreAll() {
 	for _, r := range restores {
 		r()
 	}
+}
+
+// ---- lock bookkeeping outside the scheduler ----
+//
+// In free-running (uncontrolled) mode the vsync shim records every lock it
+// has really taken, so that a sequential harness can assert the quiescence
+// invariant "a call that has returned holds no lock" and can release a leaked
+// lock before going on (otherwise the next call would block for ever and the
+// finding would be reported as a hung worker instead of as a violation).
+
+// Sequential mode: the harness promises that exactly one goroutine executes
+// code under test.  A lock that cannot be taken at once can then never be
+// taken (its holder is this goroutine or a call that has already returned), so
+// the shim reports the self-deadlock by panicking with SelfDeadlock instead of
+// blocking the process for ever.
+var sequential bool
+
+func SetSequential(on bool) { sequential = on }
+func Sequential() bool      { return sequential }
+
+// SelfDeadlock is the panic value used in sequential mode.
+type SelfDeadlock struct{ What string }
+
+func (d SelfDeadlock) Error() string {
+	return "VERIF-SELF-DEADLOCK: " + d.What + ": the lock is still held by this goroutine or by a call that has returned; the call would block for ever"
+}
+
+type heldKey struct {
+	obj  any
+	read bool
+}
+
+var (
+	heldMu    sync.Mutex
+	heldLocks = map[heldKey][]func(){}
+)
+
+// NoteHeld records that the lock obj (read or write side) was taken; unlock releases it.
+func NoteHeld(obj any, read bool, unlock func()) {
+	heldMu.Lock()
+	k := heldKey{obj, read}
+	heldLocks[k] = append(heldLocks[k], unlock)
+	heldMu.Unlock()
+}
+
+// NoteReleased records that the lock was given back.
+func NoteReleased(obj any, read bool) {
+	heldMu.Lock()
+	k := heldKey{obj, read}
+	if l := heldLocks[k]; len(l) > 1 {
+		heldLocks[k] = l[:len(l)-1]
+	} else {
+		delete(heldLocks, k)
+	}
+	heldMu.Unlock()
+}
+
+// LeakedLocks returns how many recorded locks are currently held.
+func LeakedLocks() int {
+	heldMu.Lock()
+	defer heldMu.Unlock()
+	n := 0
+	for _, l := range heldLocks {
+		n += len(l)
+	}
+	return n
+}
+
+// ReleaseLeaked gives every recorded lock back and returns how many there were.
+func ReleaseLeaked() int {
+	heldMu.Lock()
+	var fs []func()
+	for k, l := range heldLocks {
+		fs = append(fs, l...)
+		delete(heldLocks, k)
+	}
+	heldMu.Unlock()
+	for _, f := range fs {
+		f()
+	}
+	return len(fs)
 }
